@@ -219,7 +219,7 @@ class Resolver:
         if name in self.params and name in self.binds and name not in self.impure and at is not None:
             # a parameter that the function re-binds: after an unconditional re-binding the name stands for the new value; where a
             # re-binding MAY have happened (in a branch or a loop before / around the use) it stands for neither - an opaque marker
-            v = self._reaching(name, at)
+            v = self._reaching(name, at, param=True)
             if v is not None:
                 # `x = atleast_1d(x)` / `x = x if isinstance(x, ndarray) else array(x)`: the argument normalised to an array is still
                 # the argument (the rules speak about its values) - the name stays the parameter
@@ -249,7 +249,7 @@ class Resolver:
                         in_loop = True
                     cur = owner
                 if getattr(st_, "lineno", 0) < at_line or in_loop:
-                    m = ast.Call(func=ast.Name(id="MaybeRebound__", ctx=ast.Load()), args=[ast.Name(id=name, ctx=ast.Load())], keywords=[])
+                    m = ast.Call(func=ast.Name(id="MaybeRebound__", ctx=ast.Load()), args=[ast.Constant(value=name)], keywords=[])
                     m._at = at
                     return m
             return None
@@ -257,7 +257,7 @@ class Resolver:
             return None
         return self._reaching(name, at)
 
-    def _reaching(self, name, at):
+    def _reaching(self, name, at, param=False):
         bs = self.binds[name]
         if any(b[0] == "other" for b in bs) or any(id(b[1]) not in self.parent for b in bs):
             return None
@@ -289,6 +289,16 @@ class Resolver:
                         va, vb = self._value(a), self._value(b)
                         phi = ast.Call(func=ast.Name(id="Phi", ctx=ast.Load()), args=[if_st.test, va, vb], keywords=[])
                         phi._at = (if_st, a[1], b[1])
+                        return phi
+                if param and len(nested) == 1 and isinstance(nested[0][0], ast.If) and len(nested[0][1]) == 1:
+                    # `if <test>: p = <value>` with nothing on the other arm: the parameter itself is the other arm
+                    if_st, (b1,) = nested[0]
+                    p1 = self.parent[id(b1[1])]
+                    if p1[1] is if_st and p1[2] in ("body", "orelse"):
+                        va, vb = self._value(b1), ast.Name(id=name, ctx=ast.Load())
+                        arms, ats = ((va, vb), (b1[1], if_st)) if p1[2] == "body" else ((vb, va), (if_st, b1[1]))
+                        phi = ast.Call(func=ast.Name(id="Phi", ctx=ast.Load()), args=[if_st.test, arms[0], arms[1]], keywords=[])
+                        phi._at = (if_st, ats[0], ats[1])
                         return phi
                 return None
             if isinstance(owner, (ast.For, ast.While, ast.AsyncFor)) and arm == "body":
